@@ -3,7 +3,7 @@ use vstd::prelude::*;
 use vstd::std_specs::iter::IteratorSpec;
 verus! {
 //@include spec/prelude.rs
-broadcast use {axiom_string_ext, axiom_str_ext, axiom_str_of, axiom_vec_ext, axiom_vec_of, axiom_display_string, axiom_display_str, axiom_display_usize, axiom_display_asp_variable};
+broadcast use {axiom_string_ext, axiom_str_ext, axiom_str_of, axiom_vec_ext, axiom_vec_of, axiom_display_string, axiom_display_str, axiom_display_usize, axiom_display_u128, axiom_display_asp_variable};
 //@include spec/indexset.rs
 //@include units/fol_types.inc
 //@include spec/sem.rs
@@ -778,6 +778,162 @@ pub open spec fn theory_ok(t: Theory, p: asp::Program) -> bool {
 //@     proof { assert(globals_ok(globals@, p.rules@[it.index@ as int])); }
 //@end
 
+// ---- choose_fresh_global_variables: its first and last sections as fragments ----------------------------------------
+/// first section: the largest head arity
+fn globals_max_arity(program: &asp::Program) -> (r: usize)
+    ensures forall|i: int| 0 <= i < program.rules@.len() ==> head_args((#[trigger] program.rules@[i]).head).len() <= r,
+{
+//@stmts src/translating/formula_representation/tau_star.rs :: fn choose_fresh_global_variables
+//@ .from "let mut max_arity = 0;"
+//@ .until "let mut max_taken_var = 0;"
+//@ .loop 1 as it
+//@     invariant
+//@         it.seq().len() == program.rules@.len(), forall|j: int| 0 <= j < program.rules@.len() ==> *it.seq()[j] == program.rules@[j],
+//@         forall|j: int| 0 <= j < it.index@ ==> head_args((#[trigger] program.rules@[j]).head).len() <= max_arity,
+//@end
+    max_arity
+}
+
+pub open spec fn var_names(vs: Seq<asp::Variable>) -> Seq<Seq<char>> { vs.map_values(|v: asp::Variable| v.0@) }
+
+pub proof fn lemma_var_names(vs: Seq<asp::Variable>, x: asp::Variable)
+    ensures vs.contains(x) == var_names(vs).contains(x.0@),
+{
+    let ns = var_names(vs);
+    if vs.contains(x) { let i = choose|i: int| 0 <= i < vs.len() && vs[i] == x; assert(ns[i] == x.0@); }
+    if ns.contains(x.0@) { let i = choose|i: int| 0 <= i < ns.len() && ns[i] == x.0@; assert(vs[i].0@ == x.0@); assert(vs[i] == x); }
+}
+
+pub open spec fn v_name() -> Seq<char> { "V"@ }
+
+pub open spec fn num_at(globals: Seq<String>, cs: Seq<nat>, counter: nat, i: int) -> bool { globals[i]@ == cand(v_name(), cs[i]) && cs[i] <= counter }
+pub open spec fn num_free(cs: Seq<nat>, taken: Seq<asp::Variable>, i: int) -> bool { !var_names(taken).contains(cand(v_name(), cs[i])) }
+pub open spec fn num_lt(cs: Seq<nat>, i: int, j: int) -> bool { cs[i] < cs[j] }
+
+/// the fresh head variables chosen so far: V<c> for strictly increasing numbers c, none of them a variable of the program
+pub open spec fn numbering_inv(globals: Seq<String>, cs: Seq<nat>, taken: Seq<asp::Variable>, counter: nat) -> bool {
+    &&& cs.len() == globals.len()
+    &&& forall|i: int| 0 <= i < cs.len() ==> #[trigger] num_at(globals, cs, counter, i)
+    &&& forall|i: int| 0 <= i < cs.len() ==> #[trigger] num_free(cs, taken, i)
+    &&& forall|i: int, j: int| 0 <= i < j < cs.len() ==> #[trigger] num_lt(cs, i, j)
+}
+
+pub proof fn lemma_numbering_final(globals: Seq<String>, cs: Seq<nat>, taken: Seq<asp::Variable>, counter: nat)
+    requires numbering_inv(globals, cs, taken, counter),
+    ensures distinct_names(globals), forall|i: int| 0 <= i < globals.len() ==> !taken.contains(asp::Variable(#[trigger] globals[i])),
+{
+    assert forall|i: int, j: int| 0 <= i < j < globals.len() implies #[trigger] globals[i]@ != #[trigger] globals[j]@ by {
+        assert(num_at(globals, cs, counter, i) && num_at(globals, cs, counter, j) && num_lt(cs, i, j));
+        if globals[i]@ == globals[j]@ { lemma_cand_injective(v_name(), cs[i], cs[j]); }
+    }
+    assert forall|i: int| 0 <= i < globals.len() implies !taken.contains(asp::Variable(#[trigger] globals[i])) by {
+        assert(num_at(globals, cs, counter, i) && num_free(cs, taken, i));
+        lemma_var_names(taken, asp::Variable(globals[i]));
+    }
+}
+
+pub proof fn lemma_numbering_mono(globals: Seq<String>, cs: Seq<nat>, taken: Seq<asp::Variable>, c1: nat, c2: nat)
+    requires numbering_inv(globals, cs, taken, c1), c1 <= c2,
+    ensures numbering_inv(globals, cs, taken, c2),
+{
+    assert forall|i: int| 0 <= i < cs.len() implies #[trigger] num_at(globals, cs, c2, i) by { assert(num_at(globals, cs, c1, i)); }
+}
+
+pub proof fn lemma_numbering_push(globals: Seq<String>, cs: Seq<nat>, taken: Seq<asp::Variable>, c_old: nat, name: String, c: nat)
+    requires numbering_inv(globals, cs, taken, c_old), c > c_old, name@ == cand(v_name(), c), !var_names(taken).contains(cand(v_name(), c)),
+    ensures numbering_inv(globals.push(name), cs.push(c), taken, c),
+{
+    let g2 = globals.push(name);
+    let c2 = cs.push(c);
+    assert forall|i: int| 0 <= i < c2.len() implies #[trigger] num_at(g2, c2, c, i) by {
+        if i < cs.len() { assert(num_at(globals, cs, c_old, i)); }
+    }
+    assert forall|i: int| 0 <= i < c2.len() implies #[trigger] num_free(c2, taken, i) by {
+        if i < cs.len() { assert(num_free(cs, taken, i)); }
+    }
+    assert forall|i: int, j: int| 0 <= i < j < c2.len() implies #[trigger] num_lt(c2, i, j) by {
+        if j < cs.len() { assert(num_lt(cs, i, j)); } else { assert(num_at(globals, cs, c_old, i)); }
+    }
+}
+
+/// last section: V<max+1>, V<max+2>, ... skipping the names of program variables (repaired in dad0bac: no overflow, no collision)
+#[verifier::loop_isolation(false)]
+fn globals_numbering(taken_vars: IndexSet<asp::Variable>, max_taken_var: usize, max_arity: usize) -> (r: Vec<String>)
+    ensures r@.len() == max_arity, distinct_names(r@), forall|i: int| 0 <= i < r@.len() ==> !taken_vars@.contains(asp::Variable(#[trigger] r@[i])),
+{
+    let ghost mut cs: Seq<nat> = Seq::empty();
+    let ghost l = taken_vars@.len() as int;
+    proof { axiom_indexset_len(&taken_vars); reveal_strlit("V"); }
+//@stmts src/translating/formula_representation/tau_star.rs :: fn choose_fresh_global_variables
+//@ .from "let mut globals = Vec::<String>::new();"
+//@ .until "globals }"
+//@ .fmt
+//@ .loop 1 as it
+//@     invariant
+//@         globals@.len() == it.index@, 0 <= it.index@ <= max_arity,
+//@         numbering_inv(globals@, cs, taken_vars@, counter as nat),
+//@         max_taken_var <= counter, counter <= max_taken_var + it.index@ * (l + 1),
+//@ .hint after "for _ in 0..max_arity {"
+//@     proof {
+//@         assert(it.index@ * (l + 1) <= 0x1_0000_0000_0000_0000 * 0x8000_0000_0000_0000) by (nonlinear_arith)
+//@             requires 0 <= it.index@ <= 0xffff_ffff_ffff_ffff, 0 <= l + 1 <= 0x8000_0000_0000_0000;
+//@     }
+//@ .hint before "while taken_vars.contains"
+//@     let ghost n0 = counter as nat;
+//@     let ghost idx = it.index@;
+//@ .loop 2
+//@     invariant
+//@         n0 <= counter, counter - n0 <= l,
+//@         forall|j: nat| n0 <= j < counter ==> var_names(taken_vars@).contains(#[trigger] cand(v_name(), j)),
+//@         globals@.len() == idx, n0 >= 1, numbering_inv(globals@, cs, taken_vars@, (n0 - 1) as nat),
+//@     decreases n0 + l - counter,
+//@ .hint after "(counter).to_string()]))) {"
+//@     proof {
+//@         // the loop condition held: the name V<counter> is the name of a program variable
+//@         assert forall|x: asp::Variable| x.0@ == cand(v_name(), counter as nat) && #[trigger] taken_vars@.contains(x)
+//@             implies var_names(taken_vars@).contains(cand(v_name(), counter as nat)) by { lemma_var_names(taken_vars@, x); }
+//@         assert(var_names(taken_vars@).contains(cand(v_name(), counter as nat)));
+//@         lemma_taken_bound(v_name(), var_names(taken_vars@), n0, (counter + 1) as nat);
+//@     }
+//@ .hint before "globals.push("
+//@     let ghost gb = globals@;
+//@ .hint after "(counter).to_string()]));"
+//@     proof {
+//@         assert forall|x: asp::Variable| x.0@ == cand(v_name(), counter as nat) && !(#[trigger] taken_vars@.contains(x))
+//@             implies !var_names(taken_vars@).contains(cand(v_name(), counter as nat)) by { lemma_var_names(taken_vars@, x); }
+//@         assert(!var_names(taken_vars@).contains(cand(v_name(), counter as nat)));
+//@         assert(globals@ =~= gb.push(globals@.last()));
+//@         lemma_numbering_push(gb, cs, taken_vars@, (n0 - 1) as nat, globals@.last(), counter as nat);
+//@         cs = cs.push(counter as nat);
+//@         assert(numbering_inv(globals@, cs, taken_vars@, counter as nat));
+//@         assert((idx + 1) * (l + 1) == idx * (l + 1) + (l + 1)) by (nonlinear_arith);
+//@     }
+//@end
+    proof { lemma_numbering_final(globals@, cs, taken_vars@, counter as nat); }
+    globals
+}
+
+/// the postconditions of the two verified sections and of Program::variables give the assumed contract of choose_fresh_global_variables
+pub proof fn lemma_globals_compose(program: asp::Program, taken: Seq<asp::Variable>, max_arity: usize, globals: Seq<String>)
+    requires
+        forall|i: int, k: VKey| 0 <= i < program.rules@.len() && #[trigger] rule_in(program.rules@[i], k) ==> has_key(taken, k),   // Program::variables
+        forall|i: int| 0 <= i < program.rules@.len() ==> head_args((#[trigger] program.rules@[i]).head).len() <= max_arity,            // globals_max_arity
+        globals.len() == max_arity, distinct_names(globals), forall|i: int| 0 <= i < globals.len() ==> !taken.contains(asp::Variable(#[trigger] globals[i])),  // globals_numbering
+    ensures program_globals_ok(globals, program),
+{
+    assert forall|i: int| 0 <= i < program.rules@.len() implies #[trigger] globals_ok(globals, program.rules@[i]) by {
+        let r = program.rules@[i];
+        assert forall|j: int, k: VKey| 0 <= j < globals.len() && #[trigger] rule_in(r, k) implies k != #[trigger] zkey(globals[j]) by {
+            if k == zkey(globals[j]) {
+                let q = choose|q: int| 0 <= q < taken.len() && #[trigger] asp_var_key(taken[q]) == k;
+                assert(taken[q].0@ == globals[j]@);
+                assert(taken[q] == asp::Variable(globals[j]));
+                assert(taken.contains(asp::Variable(globals[j])));
+            }
+        }
+    }
+}
+
 } // verus!
 pub mod asp {
     use vstd::prelude::*;
@@ -884,6 +1040,21 @@ impl Body {
 //@         0 <= it.index@ <= self.formulas@.len(),
 //@         forall|j: int, k: VKey| 0 <= j < it.index@ && #[trigger] af_in(self.formulas@[j], k) ==> has_key(vars@, k),
 //@ .hint before "vars.extend(formula.variables())"
+//@     proof {
+//@         assert forall|a: Seq<Variable>, b: Seq<Variable>, k: VKey| has_key(a, k) || has_key(b, k) implies #[trigger] has_key(seq_extend(a, b), k) by { lemma_has_key_extend(a, b, k); }
+//@     }
+//@end
+}
+impl Program {
+//@fn src/syntax_tree/asp/mini_gringo.rs :: impl Program :: fn variables
+//@ .ret r
+//@ .spec
+//@     ensures forall|i: int, k: VKey| 0 <= i < self.rules@.len() && #[trigger] rule_in(self.rules@[i], k) ==> has_key(r@, k),
+//@ .loop 1 as it
+//@     invariant
+//@         0 <= it.index@ <= self.rules@.len(),
+//@         forall|j: int, k: VKey| 0 <= j < it.index@ && #[trigger] rule_in(self.rules@[j], k) ==> has_key(vars@, k),
+//@ .hint before "vars.extend(rule.variables())"
 //@     proof {
 //@         assert forall|a: Seq<Variable>, b: Seq<Variable>, k: VKey| has_key(a, k) || has_key(b, k) implies #[trigger] has_key(seq_extend(a, b), k) by { lemma_has_key_extend(a, b, k); }
 //@     }
